@@ -3,6 +3,7 @@ use std::any::type_name;
 use std::backtrace::Backtrace;
 use std::cell::UnsafeCell;
 use std::fmt;
+#[cfg(not(folo_verif_loom))]
 use std::hint::spin_loop;
 use std::marker::PhantomPinned;
 use std::mem::{MaybeUninit, offset_of};
@@ -13,8 +14,14 @@ use std::ptr::NonNull;
 use std::sync::Arc;
 #[cfg(any(debug_assertions, test))]
 use std::sync::Mutex;
+#[cfg(not(folo_verif_loom))]
 use std::sync::atomic::{self, AtomicU8};
 use std::task::Waker;
+
+#[cfg(folo_verif_loom)]
+use loom::hint::spin_loop;
+#[cfg(folo_verif_loom)]
+use loom::sync::atomic::{self, AtomicU8};
 
 #[cfg(debug_assertions)]
 use crate::NEVER_POISONED;
@@ -113,6 +120,9 @@ where
         // they start uninitialized by design and the UnsafeCell wrapper is transparent,
         // only affecting accesses and not the contents.
         let base_ptr = place.get_mut().as_mut_ptr();
+
+        #[cfg(folo_verif)]
+        crate::verif_hook::created(base_ptr);
 
         // SAFETY: We are making a pointer to a known field at a compiler-guaranteed offset.
         let state_ptr = unsafe { base_ptr.byte_add(offset_of!(Self, state)) }.cast::<AtomicU8>();
@@ -322,6 +332,11 @@ where
         // SAFETY: UnsafeCell pointer is never null.
         let event = unsafe { event_maybe.unwrap_unchecked() };
 
+        #[cfg(folo_verif)]
+        crate::verif_hook::touch(event_cell.get());
+        #[cfg(folo_verif)]
+        crate::verif_hook::field(event_cell.get(), crate::verif_hook::FIELD_VALUE);
+
         let value_cell = event.value.get();
 
         // We can start by setting the value - this has to happen no matter what.
@@ -366,6 +381,8 @@ where
                 // references in this type, which cannot exist at the moment because
                 // we are in the `EVENT_SIGNALING` state that acts as a mutex to block access
                 // to the `awaiter` field.
+                #[cfg(folo_verif)]
+                crate::verif_hook::field(event_cell.get(), crate::verif_hook::FIELD_AWAITER);
                 let awaiter_cell_maybe = unsafe { event.awaiter.get().as_mut() };
                 // SAFETY: UnsafeCell pointer is never null.
                 let awaiter_cell = unsafe { awaiter_cell_maybe.unwrap_unchecked() };
@@ -446,6 +463,9 @@ where
         // SAFETY: UnsafeCell pointer is never null.
         let event = unsafe { event_maybe.unwrap_unchecked() };
 
+        #[cfg(folo_verif)]
+        crate::verif_hook::touch(event_cell.get());
+
         // We first need to switch into the SIGNALING state, which acquires exclusive access
         // of the awaiter field, so we can send the wake signal if there is an awaiter.
         // Only after that can we transition into the DISCONNECTED state (because that must
@@ -479,6 +499,8 @@ where
                 // references in this type, which cannot exist at the moment because
                 // we are in the `EVENT_SIGNALING` state that acts as a mutex to block access
                 // to the `awaiter` field.
+                #[cfg(folo_verif)]
+                crate::verif_hook::field(event_cell.get(), crate::verif_hook::FIELD_AWAITER);
                 let awaiter_cell_maybe = unsafe { event.awaiter.get().as_mut() };
                 // SAFETY: UnsafeCell pointer is never null.
                 let awaiter_cell = unsafe { awaiter_cell_maybe.unwrap_unchecked() };
@@ -533,6 +555,9 @@ where
     #[inline]
     #[must_use]
     pub(crate) fn poll(&self, waker: &Waker) -> Option<Result<T, Disconnected>> {
+        #[cfg(folo_verif)]
+        crate::verif_hook::touch(std::ptr::from_ref(self));
+
         #[cfg(debug_assertions)]
         self.backtrace
             .lock()
@@ -569,6 +594,8 @@ where
         // is !Sync so cannot be used in parallel, while the sender is only allowed to
         // access this field in states that explicitly allow it, which we can only be
         // entered by the receiver in this method.
+        #[cfg(folo_verif)]
+        crate::verif_hook::field(std::ptr::from_ref(self), crate::verif_hook::FIELD_AWAITER);
         let awaiter_cell_maybe = unsafe { self.awaiter.get().as_mut() };
         // SAFETY: UnsafeCell pointer is never null.
         let awaiter_cell = unsafe { awaiter_cell_maybe.unwrap_unchecked() };
@@ -666,6 +693,8 @@ where
 
         // SAFETY: The sender is gone - there is nobody else who might be touching
         // the event anymore, we are essentially in a single-threaded mode now.
+        #[cfg(folo_verif)]
+        crate::verif_hook::field(std::ptr::from_ref(self), crate::verif_hook::FIELD_VALUE);
         let value_cell_maybe = unsafe { self.value.get().as_mut() };
         // SAFETY: UnsafeCell pointer is never null.
         let value_cell = unsafe { value_cell_maybe.unwrap_unchecked() };
@@ -818,6 +847,9 @@ where
     /// or a disconnect - immediately retrievable.
     #[must_use]
     pub(crate) fn is_set(&self) -> bool {
+        #[cfg(folo_verif)]
+        crate::verif_hook::touch(std::ptr::from_ref(self));
+
         // We use Relaxed ordering because this is independent of any other data.
         // If something wishes to actually obtain the value from the event, that
         // logic will perform its own synchronization.
@@ -850,6 +882,9 @@ where
         let event_maybe = unsafe { event_cell.get().as_ref() };
         // SAFETY: UnsafeCell pointer is never null.
         let event = unsafe { event_maybe.unwrap_unchecked() };
+
+        #[cfg(folo_verif)]
+        crate::verif_hook::touch(event_cell.get());
 
         #[cfg(debug_assertions)]
         event
@@ -960,6 +995,8 @@ where
     /// hold an initialized waker.
     unsafe fn destroy_awaiter(&self) {
         // SAFETY: Forwarding guarantees from the caller.
+        #[cfg(folo_verif)]
+        crate::verif_hook::field(std::ptr::from_ref(self), crate::verif_hook::FIELD_AWAITER);
         let awaiter_cell_maybe = unsafe { self.awaiter.get().as_mut() };
         // SAFETY: UnsafeCell pointer is never null.
         let awaiter_cell = unsafe { awaiter_cell_maybe.unwrap_unchecked() };
@@ -978,6 +1015,8 @@ where
     /// an initialized payload.
     unsafe fn destroy_value(&self) {
         // SAFETY: Forwarding guarantees from the caller.
+        #[cfg(folo_verif)]
+        crate::verif_hook::field(std::ptr::from_ref(self), crate::verif_hook::FIELD_VALUE);
         let value_cell_maybe = unsafe { self.value.get().as_mut() };
         // SAFETY: UnsafeCell pointer is never null.
         let value_cell = unsafe { value_cell_maybe.unwrap_unchecked() };
